@@ -13,9 +13,9 @@ import time
 
 VERIF = os.path.dirname(os.path.dirname(os.path.abspath(__file__)))
 REPO = os.environ.get('VERIF_REPO', '/repo')
-COQ = os.path.join(VERIF, 'coq')
+COQ = os.environ.get('VERIF_COQ') or os.path.join(VERIF, 'coq')
 THEORIES = os.path.join(COQ, 'theories')
-WORK = os.path.join(VERIF, '.work')
+WORK = os.environ.get('VERIF_WORK') or os.path.join(VERIF, '.work')
 NPROC = min(16, os.cpu_count() or 4)
 
 sys.path.insert(0, os.path.join(VERIF, 'translate'))
@@ -236,8 +236,9 @@ def load_known():
 
 
 def write_evidence(pid, data):
-    os.makedirs(os.path.join(VERIF, 'evidence'), exist_ok=True)
-    p = os.path.join(VERIF, 'evidence', pid + '.json')
+    edir = os.environ.get('VERIF_EVIDENCE_DIR') or os.path.join(VERIF, 'evidence')
+    os.makedirs(edir, exist_ok=True)
+    p = os.path.join(edir, pid + '.json')
     tmp = p + '.tmp'
     with open(tmp, 'w') as f:
         json.dump(data, f, indent=1, sort_keys=True, default=str)
@@ -245,7 +246,7 @@ def write_evidence(pid, data):
 
 
 def write_replay(pid, payload):
-    d = os.path.join(VERIF, 'replays')
+    d = os.path.join(os.environ['VERIF_WORK'], 'replays') if os.environ.get('VERIF_WORK') else os.path.join(VERIF, 'replays')
     os.makedirs(d, exist_ok=True)
     blob = json.dumps(payload, sort_keys=True, default=str)
     h = hashlib.sha1(blob.encode()).hexdigest()[:10]
